@@ -712,14 +712,19 @@ fn render_svg(args: &Args, tree: &usvg::Tree) -> Result<tiny_skia::Pixmap, Strin
                 page_pixmap.fill(svg_to_skia_color(background));
             }
 
-            page_pixmap.draw_pixmap(
-                bbox.x() as i32,
-                bbox.y() as i32,
-                pixmap.as_ref(),
-                &tiny_skia::PixmapPaint::default(),
-                tiny_skia::Transform::default(),
-                None,
-            );
+            // `draw_pixmap` panics when `x + width` or `y + height` overflows i32.
+            // A node that far away is not on the page anyway.
+            let (x, y) = (bbox.x() as i32, bbox.y() as i32);
+            if tiny_skia::IntRect::from_xywh(x, y, pixmap.width(), pixmap.height()).is_some() {
+                page_pixmap.draw_pixmap(
+                    x,
+                    y,
+                    pixmap.as_ref(),
+                    &tiny_skia::PixmapPaint::default(),
+                    tiny_skia::Transform::default(),
+                    None,
+                );
+            }
             page_pixmap
         } else {
             pixmap
